@@ -11,6 +11,7 @@ import TongoProofs.C01
 import TongoProofs.C07
 import TongoProofs.C17
 import TongoProofs.Lemmas.JsonFiftBridge
+import TongoProofs.Lemmas.SourceBocPinned
 /-! Property C20 — JSON forms of chain values parse back to the same value.
 Property theorems only. The printers/parsers are the functions of `TongoModel/Json.lean` (tied to the Go methods by
 the correspondence check and, for the ~170 generated types, by the regenerated table `TongoGen.IntJson`). -/
@@ -302,6 +303,28 @@ theorem msgaddress_var_lookalike (b : List Bool) (hb : b = List.replicate 256 fa
     (by intro a h; cases h), e]
   exact parseAddrBody_std none 0 _ (by decide) (by decide) rfl
 
+/-- **The look-alike exclusion is exactly the ambiguous case.** EVERY variable address of exactly 256 bits in a
+workchain that fits int8 (any anycast, any bits) — the complement of the last clause of `AddrDomain` within the other
+clauses — is printed as a text that the parser reads back as a STANDARD address, so it does not round-trip; together
+with `msgaddress_json_roundtrip` (every address of `AddrDomain` round-trips): a well-ranged variable address
+round-trips if and only if it is not a look-alike. -/
+theorem msgaddress_var_lookalike_all (any : Option Anycast) (wc : Int) (b : List Bool)
+    (hany : ∀ a, any = some a → a.depth < 2 ^ 32 ∧ a.pfx < 2 ^ 32) (hlo : -128 ≤ wc) (hhi : wc ≤ 127)
+    (hb : b.length = 256) :
+    (∃ addr, parseMsgAddr (printMsgAddr (.var any wc b)) = .ok (.std any wc addr)) ∧
+      parseMsgAddr (printMsgAddr (.var any wc b)) ≠ .ok (.var any wc b) := by
+  have h : ∃ addr, parseMsgAddr (printMsgAddr (.var any wc b)) = .ok (.std any wc addr) := by
+    unfold printMsgAddr
+    rw [parseMsgAddr_parts wc _ (toFift_no _ ':' (by decide) (by decide)) (toFift_no _ '"' (by decide) (by decide)) any
+      hany]
+    exact parseAddrBody_lookalike any wc b hlo hhi hb
+  refine ⟨h, ?_⟩
+  obtain ⟨addr, e⟩ := h
+  rw [e]
+  intro hc
+  injection hc with hc
+  cases hc
+
 /-! ## wrappers around codecs owned by other slices -/
 
 /-- boc.Cell / tlb.Any (`"` + BOC hex + `"`, parsed after Trim): the JSON form round-trips whenever the inner text
@@ -324,7 +347,7 @@ theorem json_roundtrip_via_string {α} (toText : α → Str) (ofText : Str → O
 
 /-! ## cells and message-body envelopes -/
 
-/-- boc.Cell / tlb.Any for an ALREADY ORDERED table (building block of `json_roundtrip_cell_go_writer` below): `"` + hex
+/-- boc.Cell / tlb.Any for an ALREADY ORDERED table (the header arithmetic only; the whole writer is `json_roundtrip_cell_go_writer` below): `"` + hex
 of what serializeBoc's header arithmetic writes for `(t, [root])` parses back (Trim, hex.DecodeString, DeserializeBoc,
 one root) to exactly that table and root. `hv`: the table is a valid layout; `hn`/`hlen`: size limits of the format. -/
 theorem json_roundtrip_cell (t : Table) (root : Nat) (hv : Boc.ValidLayout t [root]) (hn : t.size < 16777216)
@@ -336,39 +359,79 @@ theorem json_roundtrip_cell (t : Table) (root : Nat) (hv : Boc.ValidLayout t [ro
   simp only []
   rw [C01.roundtrip t [root] false false false [] hv hn (by simp) (by simp; omega) hlen]
 
-/-- **boc.Cell / tlb.Any through the whole Go writer** (C01 `roundtrip_go_writer`: the order of
-importCell/reorderCells/revisit is a theorem, `order_valid`): Cell.MarshalJSON of the cell given as root of any valid
-table succeeds, and Cell.UnmarshalJSON of that text returns one cell that unfolds to the SAME tree. Premises: `hk` — the
-writer's de-duplication key (hex representation hash) identifies the sub-cells (no hash collision inside this one
-cell); the size limits of the format for the ordered table. -/
-theorem json_roundtrip_cell_go_writer {K : Type} [BEq K] [Hashable K] [LawfulBEq K] (t : Table) (root : Nat)
+/-- Cell.MarshalJSON succeeds on every valid presentation `(t, root)` of a cell (C01 `order_valid`): the writer's
+ordering returns some `o` and the printer some text — the `o` and `txt` of `json_roundtrip_cell_go_writer`. -/
+theorem json_cell_go_writer_succeeds {K : Type} [BEq K] [Hashable K] [LawfulBEq K] (t : Table) (root : Nat)
     (key : Nat → Option K) (hv : Boc.ValidLayout t [root]) (hk : Boc.Order.KeyInjOn t key) :
-    ∃ (o : Boc.Order.Ordered) (txt : Str), printCellJsonGo t key root = .ok txt ∧
-      (o.table.size < 16777216 → txt.length < Boc.two63 →
-        ∃ r, parseCellJson txt = .ok (o.table, r) ∧
-          Table.unfold o.table (o.table.size + 1) r = Table.unfold t (t.size + 1) root) := by
-  obtain ⟨o, bs, _, hser, hval, hparse⟩ := C01.roundtrip_go_writer t [root] key false false false hv hk
-  refine ⟨o, quote (hexLower bs), by simp [printCellJsonGo, hser, Outcome.bind], ?_⟩
-  intro hn hl
-  have hroots : o.roots.map (Table.unfold o.table (o.table.size + 1)) = [Table.unfold t (t.size + 1) root] := by
-    rw [hval.roots_eq]; rfl
-  have hlen1 : o.roots.length = 1 := by
-    have := congrArg List.length hroots
-    simpa using this
-  match ho : o.roots, hlen1 with
-  | [r], _ =>
-    have hr : [Table.unfold o.table (o.table.size + 1) r] = [Table.unfold t (t.size + 1) root] := by
-      rw [ho] at hroots; simpa using hroots
-    have hrlt : r < o.table.size := hval.valid.1.2.1 r (by rw [ho]; simp)
-    have hbs : bs.length < Boc.two63 := by
-      have : (quote (hexLower bs)).length = 2 * bs.length + 2 := by simp [quote, hexLower_length]
-      omega
-    have hp := hparse hn (by simp) (by simp; omega) hbs
-    refine ⟨r, ?_, by simpa using hr⟩
+    ∃ (o : Boc.Order.Ordered) (txt : Str), Boc.Order.orderWith t key Boc.Order.goSpecial [root] = .ok o ∧
+      printCellJsonGo t key root = .ok txt := by
+  obtain ⟨o, bs, ho, hser⟩ := SourceBoc.writer_total t root key false false false hv hk
+  exact ⟨o, quote (hexLower bs), ho, by simp [printCellJsonGo, hser, Outcome.bind]⟩
+
+/-- **boc.Cell / tlb.Any through the whole Go writer.** Stated for THE order `o` that the model of
+importCell/reorderCells/revisit returns (`hord`) and THE text that Cell.MarshalJSON returns (`hprint`) — no existential
+witness for the table, no guard inside the conclusion: Cell.UnmarshalJSON of that text returns exactly the writer's
+table `o.table` and its one root `r`, and that root unfolds to the SAME tree `c` the input root unfolds to. Premises:
+`hk` — the writer's de-duplication key (hex representation hash) identifies the sub-cells (no hash collision inside
+this one cell); `hsize` — the size limit of the format as a condition on the INPUT cell: fewer than 2²⁴ structurally
+distinct sub-cells (implied by `t.size < 2²⁴`, `SourceBoc.subCellsBelow_of_size`). That the text fits a Go slice is
+derived. Built from C01's pieces in `Lemmas/SourceBocPinned.lean`. -/
+theorem json_roundtrip_cell_go_writer {K : Type} [BEq K] [Hashable K] [LawfulBEq K] (t : Table) (root : Nat)
+    (key : Nat → Option K) (hv : Boc.ValidLayout t [root]) (hk : Boc.Order.KeyInjOn t key)
+    (c : Cell) (hc : Table.unfold t (t.size + 1) root = some c) (hsize : SourceBoc.SubCellsBelow c 16777216)
+    (o : Boc.Order.Ordered) (txt : Str)
+    (hord : Boc.Order.orderWith t key Boc.Order.goSpecial [root] = .ok o)
+    (hprint : printCellJsonGo t key root = .ok txt) :
+    ∃ r, o.roots = [r] ∧ parseCellJson txt = .ok (o.table, r) ∧
+      Table.unfold o.table (o.table.size + 1) r = some c := by
+  unfold printCellJsonGo at hprint
+  cases hser : Boc.Order.serializeBocModel t key [root] false false false with
+  | err e => rw [hser] at hprint; cases hprint
+  | panic e => rw [hser] at hprint; cases hprint
+  | ok bs =>
+    rw [hser] at hprint
+    simp only [Outcome.bind] at hprint
+    injection hprint with htxt
+    subst htxt
+    obtain ⟨hparse, _, _, r, hr, _, hru⟩ :=
+      SourceBoc.writer_pinned t root key false false false hv hk c hc hsize o bs hord hser
+    refine ⟨r, hr, ?_, hru⟩
     unfold parseCellJson
     rw [trimQuote_quote _ (fun c hc => lowerHex_ne c '"' (hexLower_chars _ c hc) (by decide)), decodeChars_hexLower]
     simp only []
-    rw [hp, ho]
+    rw [hparse, hr]
+
+/-- Regression for AUDIT2 B2. The previous statement could be proved from "the printer returned some text" alone by
+choosing a witness table padded to 2²⁴ rows (the parse clause and the unfold equality both sat under the guard
+`o.table.size < 2²⁴`). Now nothing is chosen and nothing is guarded: under the same hypotheses the writer's table has
+fewer than 2²⁴ rows, and whatever Cell.UnmarshalJSON is claimed to return for the text IS the writer's table and root —
+so the claim is false for every padded table. -/
+example {K : Type} [BEq K] [Hashable K] [LawfulBEq K] (t : Table) (root : Nat)
+    (key : Nat → Option K) (hv : Boc.ValidLayout t [root]) (hk : Boc.Order.KeyInjOn t key)
+    (c : Cell) (hc : Table.unfold t (t.size + 1) root = some c) (hsize : SourceBoc.SubCellsBelow c 16777216)
+    (o : Boc.Order.Ordered) (txt : Str)
+    (hord : Boc.Order.orderWith t key Boc.Order.goSpecial [root] = .ok o)
+    (hprint : printCellJsonGo t key root = .ok txt) :
+    (∀ (t' : Table) (r' : Nat), parseCellJson txt = .ok (t', r') → t' = o.table ∧ o.roots = [r']) ∧
+    (∀ (F : Table) (r' : Nat), 16777216 ≤ F.size → parseCellJson txt ≠ .ok (F, r')) := by
+  obtain ⟨r, hr, hp, hru⟩ := json_roundtrip_cell_go_writer t root key hv hk c hc hsize o txt hord hprint
+  have hn : o.table.size < 16777216 := by
+    obtain ⟨l, hl, hmem⟩ := hsize
+    obtain ⟨o', ho', hval⟩ := Boc.Order.orderWith_valid t [root] key Boc.Order.goSpecial hv hk
+    rw [hord] at ho'; injection ho' with e; subst e
+    exact Nat.lt_of_le_of_lt (SourceBoc.ordered_size_le t root o hv hval c hc l hmem) hl
+  refine ⟨?_, ?_⟩
+  · intro t' r' h'
+    rw [hp] at h'
+    injection h' with e
+    injection e with e1 e2
+    exact ⟨e1.symm, by rw [hr, e2]⟩
+  · intro F r' hF h'
+    rw [hp] at h'
+    injection h' with e
+    injection e with e1 _
+    rw [← e1] at hF
+    omega
 
 /-- ton.AccountID: its JSON form (json.Marshal of the raw form / json.Unmarshal into a string, then ParseAccountID) is
 modelled byte-wise by the addr slice; the concrete round trip is C17 `json_roundtrip`, re-stated here so that the
